@@ -13,8 +13,8 @@ import (
 	"github.com/WICG/webpackage/go/signedexchange/zverif/refbundle"
 )
 
-var c04ManyCounts = []int{4, 22, 23, 24, 25, 255, 256, 257}
-var c04ManyCountsThorough = []int{4, 22, 23, 24, 25, 255, 256, 257, 65535, 65536}
+var c04ManyCounts = []int{4, 22, 23, 24, 25, 63, 64, 65, 255, 256, 257}
+var c04ManyCountsThorough = []int{4, 22, 23, 24, 25, 63, 64, 65, 127, 128, 255, 256, 257, 1000, 1024, 4096, 65535, 65536}
 
 func c04GenMany(c *mc.Ctx) *c04Case {
 	cs := &c04Case{}
@@ -28,7 +28,6 @@ func c04GenMany(c *mc.Ctx) *c04Case {
 	bl := bodyLens[c.Free(len(bodyLens), "bodylen")]
 	order := c.Free(2, "insertion order: ascending / descending URL")
 	cs.Primary = &c04PrimaryPool[0]
-	hdr := []refbundle.LHeader{{Name: "Content-Type", Values: []string{"text/plain"}}}
 	for i := 0; i < n; i++ {
 		k := i
 		if order == 1 {
@@ -43,7 +42,10 @@ func c04GenMany(c *mc.Ctx) *c04Case {
 		for j := range body {
 			body[j] = byte(k + 7*j)
 		}
-		cs.Exs = append(cs.Exs, c04Ex{URL: u, Status: 200, Hdr: hdr, Body: body})
+		// every response has its own header block (a writer that attributes header blocks to the wrong
+		// response is invisible when they are all equal)
+		hdr := []refbundle.LHeader{{Name: "Content-Type", Values: []string{"text/plain"}}, {Name: "X-Index", Values: []string{fmt.Sprint(k)}}}
+		cs.Exs = append(cs.Exs, c04Ex{URL: u, Status: 200 + k%4, Hdr: hdr, Body: body})
 	}
 	cs.Big = n >= 65535
 	cs.Desc = fmt.Sprintf("%s many n=%d bodylen=%d order=%d", cs.Ver, n, bl, order)
@@ -98,7 +100,7 @@ func c04GenVariantLimit(c *mc.Ctx) *c04Case {
 func init() {
 	p4 := props["C04"]
 	p4.Harnesses = append(p4.Harnesses, &mc.Harness{Name: "C04/many", Run: func(c *mc.Ctx) { c04Check(c, "C04/many", c04GenMany(c)) }})
-	p4.Rule += " C04/many: b1/b2 x exchange count {4,22,23,24,25,255,256,257; thorough also 65535, 65536} (the head-size boundaries of the index map and the responses array) x body length {1,0,24} x insertion in ascending / descending URL order, URLs of varying length."
+	p4.Rule += " C04/many: b1/b2 x exchange count {4,22,23,24,25,63,64,65,255,256,257; thorough also 127,128,1000,1024,4096,65535,65536} (the head-size boundaries of the index map and the responses array) x body length {1,0,24} x insertion in ascending / descending URL order, URLs of varying length."
 	p4.Harnesses = append(p4.Harnesses, &mc.Harness{Name: "C04/variant-limit", Run: func(c *mc.Ctx) { c04Check(c, "C04/variant-limit", c04GenVariantLimit(c)) }})
 	p4.Rule += " C04/variant-limit: one b1 URL with a complete variant set of 100x100, 10x10x100 and 101x99 keys (at and just below the writer's limit of 10000), row-major and reversed insertion."
 	p3 := props["C03"]
